@@ -2346,3 +2346,475 @@ Proof.
     rewrite filter_tree_obs, sel_copy. apply sel_ext. intros p. symmetry.
     apply survive_below; [exact H1|apply nested_false; exact H2|exact H3].
 Qed.
+
+(* ============================================================================================
+   20. BinaryNode trees: the whole observation (empty-slot markers included)
+   ============================================================================================ *)
+
+(* the encoding the harness emits: an empty slot is exactly HOLE, a real node has exactly two slots *)
+Fixpoint wf2 (t : tree) : bool :=
+  match t with
+  | T g n a ks =>
+      (if is_nil n then match g with None => true | Some _ => false end && is_nil a && is_nil ks
+       else Nat.eqb (length ks) 2)
+      && forallb wf2 ks
+  end.
+
+Lemma wf2_hole k : wf2 k = true -> is_hole k = true -> k = HOLE.
+Proof.
+  destruct k as [g n a ks]. unfold is_hole. cbn [tname wf2]. intros H Hn. rewrite Hn in H.
+  apply andb_true_iff in H as [H _]. apply andb_true_iff in H as [H Hk]. apply andb_true_iff in H as [Hg Ha].
+  destruct g; [discriminate|]. destruct n; [|discriminate]. destruct a; [|discriminate]. destruct ks; [|discriminate].
+  reflexivity.
+Qed.
+
+Lemma wf2_kids g n a ks : wf2 (T g n a ks) = true -> forallb wf2 ks = true.
+Proof. cbn [wf2]. intros H. apply andb_true_iff in H as [_ H]. exact H. Qed.
+
+Lemma wf2_holes_leaf t : wf2 t = true -> holes_leaf t = true.
+Proof.
+  induction t as [g n a ks IH] using tree_ind'. cbn [wf2 holes_leaf]. intros H.
+  apply andb_true_iff in H as [H1 H2]. apply andb_true_iff. split.
+  - destruct (is_nil n); [|reflexivity]. apply andb_true_iff in H1 as [_ H1]. cbn. exact H1.
+  - clear H1. induction ks as [|k r IHr]; [reflexivity|]. inversion IH as [|? ? Hk Hr]; subst.
+    cbn [forallb] in *. apply andb_true_iff in H2 as [Ha Hb]. rewrite (Hk Ha), (IHr Hr Hb). reflexivity.
+Qed.
+
+Lemma wf2_copy t : wf2 t = true -> wf2 (copy_tree t) = true.
+Proof.
+  induction t as [g n a ks IH] using tree_ind'. cbn [wf2 copy_tree]. intros H.
+  apply andb_true_iff in H as [H1 H2]. apply andb_true_iff. split.
+  - destruct (is_nil n).
+    + apply andb_true_iff in H1 as [H1 Hk]. apply andb_true_iff in H1 as [_ Ha]. rewrite Ha. cbn.
+      destruct ks; [reflexivity|discriminate].
+    + rewrite map_length. exact H1.
+  - clear H1. rewrite forallb_map. induction ks as [|k r IHr]; [reflexivity|]. inversion IH as [|? ? Hk Hr]; subst.
+    cbn [forallb] in *. apply andb_true_iff in H2 as [Ha Hb]. rewrite (Hk Ha), (IHr Hr Hb). reflexivity.
+Qed.
+
+Lemma wf2_subtree p : forall t s, wf2 t = true -> subtree_at t p = Some s -> wf2 s = true.
+Proof.
+  induction p as [|i p IH]; intros t s Hw H.
+  - cbn in H. inversion H; subst. exact Hw.
+  - destruct t as [g n a ks]. cbn [subtree_at tkids] in H. destruct (nth_error ks i) as [k|] eqn:E; [|discriminate].
+    apply (IH k s); [|exact H]. apply wf2_kids in Hw.
+    apply (proj1 (forallb_forall _ _) Hw). apply (nth_error_In _ _ E).
+Qed.
+
+Lemma mapi_from_length {A B} (f : nat -> A -> B) l : forall i, length (mapi_from f i l) = length l.
+Proof. induction l as [|x l IH]; intros i; cbn; [reflexivity|]. rewrite IH. reflexivity. Qed.
+
+Lemma is_hole_filter_b alive t : is_hole (filter_tree_b alive t) = is_hole t.
+Proof. destruct t; reflexivity. Qed.
+
+Lemma wf2_HOLE : wf2 HOLE = true.
+Proof. reflexivity. Qed.
+
+Lemma wf2_filter_b t : forall alive, wf2 t = true -> wf2 (filter_tree_b alive t) = true.
+Proof.
+  induction t as [g n a ks IH] using tree_ind'. intros alive H. cbn [wf2 filter_tree_b] in *.
+  apply andb_true_iff in H as [H1 H2]. apply andb_true_iff. split.
+  - destruct (is_nil n).
+    + apply andb_true_iff in H1 as [H1 Hk]. rewrite H1. destruct ks; [reflexivity|discriminate].
+    + rewrite mapi_from_length. exact H1.
+  - clear H1. generalize 0. induction ks as [|k r IHr]; intros i; [reflexivity|]. inversion IH as [|? ? Hk Hr]; subst.
+    cbn [forallb] in H2. apply andb_true_iff in H2 as [Ha Hb]. cbn [mapi_from forallb].
+    rewrite (IHr Hr Hb). rewrite andb_true_r.
+    destruct (is_hole k); [exact Ha|]. destruct (alive [i]); [apply Hk; exact Ha|reflexivity].
+Qed.
+
+Lemma mapi_from_mapi_from {A B C} (f : nat -> B -> C) (g : nat -> A -> B) l : forall i,
+  mapi_from f i (mapi_from g i l) = mapi_from (fun j x => f j (g j x)) i l.
+Proof. induction l as [|x l IH]; intros i; cbn; [reflexivity|]. rewrite IH. reflexivity. Qed.
+
+Lemma filter_tree_b_ext t : forall A B, (forall p, A p = B p) -> filter_tree_b A t = filter_tree_b B t.
+Proof.
+  induction t as [g n a ks IH] using tree_ind'. intros A B H. cbn [filter_tree_b]. f_equal.
+  apply mapi_from_ext. intros j k Hk. destruct (is_hole k); [reflexivity|]. rewrite (H [j]).
+  destruct (B [j]); [|reflexivity]. apply (Forall_In _ _ _ IH Hk). intros p. apply H.
+Qed.
+
+(* slots never move, so two rounds of surgery are one round with the conjunction *)
+Lemma filter_b_compose t : forall A B,
+  filter_tree_b A (filter_tree_b B t) = filter_tree_b (fun p => B p && A p) t.
+Proof.
+  induction t as [g n a ks IH] using tree_ind'. intros A B. cbn [filter_tree_b]. f_equal.
+  rewrite mapi_from_mapi_from. apply mapi_from_ext. intros j k Hk.
+  destruct (is_hole k) eqn:Eh; [rewrite Eh; reflexivity|].
+  destruct (B [j]); cbn [andb].
+  - rewrite is_hole_filter_b, Eh. destruct (A [j]); [|reflexivity]. apply (Forall_In _ _ _ IH Hk).
+  - reflexivity.
+Qed.
+
+Lemma cutb_hole k t : is_hole t = true -> cutb k t = t.
+Proof. destruct t as [g n a ks]. unfold is_hole. cbn [tname cutb]. intros ->. reflexivity. Qed.
+
+(* the depth cut is the surgery with "position not longer than k" *)
+Lemma cutb_as_filter t : forall k, wf2 t = true -> cutb k t = filter_tree_b (fun p => Nat.leb (length p) k) t.
+Proof.
+  induction t as [g n a ks IH] using tree_ind'. intros k Hw.
+  destruct (is_nil n) eqn:En.
+  - assert (E : T g n a ks = HOLE) by (apply wf2_hole; [exact Hw|exact En]).
+    rewrite E. destruct k; reflexivity.
+  - pose proof (wf2_kids _ _ _ _ Hw) as Hks. cbn [wf2] in Hw. rewrite En in Hw.
+    apply andb_true_iff in Hw as [Hlen _]. apply Nat.eqb_eq in Hlen.
+    destruct ks as [|k1 [|k2 [|k3 r]]]; try discriminate.
+    cbn [forallb] in Hks. apply andb_true_iff in Hks as [W1 W2]. apply andb_true_iff in W2 as [W2 _].
+    inversion IH as [|? ? I1 I']; subst. inversion I' as [|? ? I2 _]; subst.
+    cbn [cutb filter_tree_b mapi_from]. rewrite En. destruct k as [|k]; cbn [length Nat.leb map].
+    + f_equal. f_equal; [|f_equal];
+        [destruct (is_hole k1) eqn:E1; [symmetry; apply wf2_hole; assumption|reflexivity]
+        |destruct (is_hole k2) eqn:E2; [symmetry; apply wf2_hole; assumption|reflexivity]].
+    + f_equal. f_equal; [|f_equal].
+      * destruct (is_hole k1) eqn:E1; [apply cutb_hole; exact E1|]. rewrite (I1 k W1). apply filter_tree_b_ext.
+        intros p. reflexivity.
+      * destruct (is_hole k2) eqn:E2; [apply cutb_hole; exact E2|]. rewrite (I2 k W2). apply filter_tree_b_ext.
+        intros p. reflexivity.
+Qed.
+
+Lemma filter_tree_b_id t : filter_tree_b (fun _ => true) t = t.
+Proof.
+  induction t as [g n a ks IH] using tree_ind'. cbn [filter_tree_b]. f_equal.
+  rewrite <- (map_id ks) at 2. rewrite <- (mapi_from_const (fun k => k) 0 ks). apply mapi_from_ext.
+  intros j k Hk. destruct (is_hole k); [reflexivity|]. apply (Forall_In _ _ _ IH Hk).
+Qed.
+
+(* depth_cut_x true as one surgery *)
+Lemma depth_cut_x_true_filter d t :
+  wf2 t = true ->
+  depth_cut_x true d t = filter_tree_b (fun p => within_depth d (S (length p))) t.
+Proof.
+  intros Hw. destruct d as [|k].
+  - cbn [depth_cut_x]. symmetry. apply filter_tree_b_id.
+  - rewrite (binary_depth_cut k t (wf2_holes_leaf t Hw)), (cutb_as_filter t k Hw). reflexivity.
+Qed.
+
+(* labels with empty-slot markers: a node whose parent is kept is shown — as itself when it is a real,
+   kept node, as an empty slot otherwise *)
+Definition emit_b (P : pos -> bool) (ps : pos * tree) : lbl :=
+  if is_hole (snd ps) || negb (P (fst ps)) then (S (length (fst ps)), [], []) else lbl_of ps.
+
+Definition selb_gen (b : bool) (P : pos -> bool) (t : tree) : list lbl :=
+  flat_map (fun ps => if (if is_nil (fst ps) then b else P (removelast (fst ps)))
+                      then [emit_b P ps] else []) (pre_pos t).
+
+Lemma flat_map_concat' {A B} (f : A -> list B) ll : flat_map f (concat ll) = concat (map (flat_map f) ll).
+Proof. induction ll as [|l ll IH]; cbn; [reflexivity|]. rewrite flat_map_app, IH. reflexivity. Qed.
+
+Lemma flat_map_map' {A B C} (f : B -> list C) (g : A -> B) l : flat_map f (map g l) = flat_map (fun x => f (g x)) l.
+Proof. induction l as [|x l IH]; cbn; [reflexivity|]. rewrite IH. reflexivity. Qed.
+
+Lemma map_flat_map' {A B C} (g : B -> C) (f : A -> list B) l : map g (flat_map f l) = flat_map (fun x => map g (f x)) l.
+Proof. induction l as [|x l IH]; cbn; [reflexivity|]. rewrite map_app, IH. reflexivity. Qed.
+
+Lemma emit_b_shift P i (ps : pos * tree) :
+  emit_b P (i :: fst ps, snd ps) = lbl_up (emit_b (fun p => P (i :: p)) ps).
+Proof. destruct ps as [p x]. unfold emit_b. cbn [fst snd]. destruct (is_hole x || negb (P (i :: p))); reflexivity. Qed.
+
+Lemma selb_gen_unfold b P g n a ks :
+  selb_gen b P (T g n a ks) =
+  (if b then [emit_b P ([], T g n a ks)] else []) ++
+  concat (mapi_from (fun i k => map lbl_up (selb_gen (P []) (fun p => P (i :: p)) k)) 0 ks).
+Proof.
+  unfold selb_gen. cbn [pre_pos flat_map fst is_nil]. f_equal.
+  rewrite flat_map_concat', map_mapi_from. f_equal. apply mapi_from_ext. intros j k _.
+  rewrite flat_map_map', map_flat_map'. apply flat_map_ext. intros [p x]. cbn [fst snd is_nil].
+  destruct p as [|i' p'].
+  - cbn [removelast is_nil]. destruct (P []); [|reflexivity]. cbn [map].
+    f_equal. apply (emit_b_shift P j ([], x)).
+  - change (removelast (j :: i' :: p')) with (j :: removelast (i' :: p')). cbn [is_nil].
+    destruct (P (j :: removelast (i' :: p'))); [|reflexivity]. cbn [map]. f_equal.
+    apply (emit_b_shift P j (i' :: p', x)).
+Qed.
+
+Lemma selb_gen_ext b P Q t : (forall p, P p = Q p) -> selb_gen b P t = selb_gen b Q t.
+Proof.
+  intros H. unfold selb_gen. apply flat_map_ext. intros [p x]. cbn [fst snd]. unfold emit_b. cbn [fst snd].
+  rewrite (H p), (H (removelast p)). reflexivity.
+Qed.
+
+Lemma selb_gen_none t : selb_gen false (fun _ => false) t = [].
+Proof.
+  unfold selb_gen. induction (pre_pos t) as [|[p x] l IH]; [reflexivity|]. cbn [flat_map fst].
+  destruct (is_nil p); exact IH.
+Qed.
+
+Lemma obs_tree_HOLE : obs_tree HOLE = [(1, [], [])].
+Proof. reflexivity. Qed.
+
+Lemma selb_gen_HOLE P : selb_gen true P HOLE = [(1, [], [])].
+Proof. reflexivity. Qed.
+
+Lemma obs_filter_b_kids (alive : pos -> bool) (ks : list tree) : forall i,
+  Forall (fun k => forall al, wf2 k = true -> obs_tree (filter_tree_b al k) = selb_gen true (survive al) k) ks ->
+  forallb wf2 ks = true ->
+  flat_map (fun k => map lbl_up (obs_tree k))
+    (mapi_from (fun i k => if is_hole k then k
+                           else if alive [i] then filter_tree_b (fun p => alive (i :: p)) k else HOLE) i ks) =
+  concat (mapi_from (fun i k => map lbl_up (selb_gen true (fun p => survive alive (i :: p)) k)) i ks).
+Proof.
+  induction ks as [|k ks IHk]; intros i HF HW; [reflexivity|].
+  inversion HF as [|? ? Hk Hks]; subst. cbn [forallb] in HW. apply andb_true_iff in HW as [Wk Ws].
+  cbn [mapi_from concat flat_map]. rewrite (IHk (S i) Hks Ws). f_equal. f_equal.
+  destruct (is_hole k) eqn:Eh.
+  - rewrite (wf2_hole k Wk Eh). reflexivity.
+  - destruct (alive [i]) eqn:Ea.
+    + rewrite (Hk _ Wk). apply selb_gen_ext. intros p. rewrite survive_cons, Ea. reflexivity.
+    + rewrite obs_tree_HOLE. destruct k as [g n a ks']. rewrite selb_gen_unfold.
+      unfold emit_b. cbn [fst snd length]. rewrite survive_cons, Ea. cbn [andb negb orb]. rewrite orb_true_r.
+      cbn [app].
+      assert (E : forall j l, concat (mapi_from (fun i0 k0 => map lbl_up
+                    (selb_gen false (fun p => survive alive (i :: i0 :: p)) k0)) j l) = []).
+      { intros j l. revert j. induction l as [|x l IHl]; intros j; [reflexivity|]. cbn [mapi_from concat].
+        rewrite IHl, app_nil_r.
+        rewrite (selb_gen_ext false _ (fun _ => false)), selb_gen_none; [reflexivity|].
+        intros p. rewrite survive_cons, Ea. reflexivity. }
+      rewrite E. reflexivity.
+Qed.
+
+(* the observation of the surgery result: every slot of a surviving node is shown, as the node in it
+   if that node is real and survives, as an empty slot otherwise *)
+Lemma obs_filter_b t : forall alive,
+  wf2 t = true -> obs_tree (filter_tree_b alive t) = selb_gen true (survive alive) t.
+Proof.
+  induction t as [g n a ks IH] using tree_ind'. intros alive Hw.
+  cbn [filter_tree_b]. rewrite obs_tree_unfold, selb_gen_unfold.
+  pose proof (wf2_kids _ _ _ _ Hw) as Hks.
+  assert (Eroot : emit_b (survive alive) ([], T g n a ks) = (1, n, a)).
+  { unfold emit_b, is_hole. cbn [fst snd tname survive nonempty_prefixes forallb negb length].
+    rewrite orb_false_r. destruct (is_nil n) eqn:En; [|reflexivity].
+    assert (E : T g n a ks = HOLE) by (apply wf2_hole; [exact Hw|exact En]). inversion E. reflexivity. }
+  rewrite Eroot. cbn [app].
+  rewrite (obs_filter_b_kids alive ks 0 IH Hks). reflexivity.
+Qed.
+
+Lemma survive_and A B p : survive (fun q => A q && B q) p = survive A p && survive B p.
+Proof.
+  unfold survive. induction (nonempty_prefixes p) as [|x l IH]; [reflexivity|]. cbn [forallb].
+  rewrite IH. destruct (A x), (B x), (forallb A l), (forallb B l); reflexivity.
+Qed.
+
+Lemma nonempty_prefixes_length p y : In y (nonempty_prefixes p) -> length y <= length p.
+Proof.
+  intros H. apply In_nonempty_prefixes in H as [_ [r ->]]. rewrite app_length. lia.
+Qed.
+
+Lemma survive_depth d p :
+  survive (fun q => within_depth d (S (length q))) p = within_depth d (S (length p)).
+Proof.
+  unfold within_depth. destruct d as [|k]; cbn [Nat.eqb orb].
+  - unfold survive. apply forallb_forall. intros; reflexivity.
+  - cbn [Nat.leb]. destruct (Nat.leb (length p) k) eqn:E.
+    + apply forallb_forall. intros y Hy. apply nonempty_prefixes_length in Hy. apply Nat.leb_le in E.
+      apply Nat.leb_le. lia.
+    + destruct p as [|i p]; [discriminate|].
+      assert (Hin : In (i :: p) (nonempty_prefixes (i :: p))).
+      { apply In_nonempty_prefixes. split; [discriminate|apply prefix_refl]. }
+      destruct (survive _ (i :: p)) eqn:Es; [|reflexivity]. unfold survive in Es.
+      rewrite forallb_forall in Es. specialize (Es _ Hin). cbn beta in Es. congruence.
+Qed.
+
+Lemma selb_gen_copy b P t : selb_gen b P (copy_tree t) = selb_gen b P t.
+Proof.
+  unfold selb_gen. rewrite pre_pos_copy, flat_map_map'. apply flat_map_ext. intros [p x].
+  unfold emit_b, cp, lbl_of. cbn [fst snd]. rewrite is_hole_copy, tname_copy.
+  destruct x as [g n a ks]. reflexivity.
+Qed.
+
+(* the spec's expected list below `base` = selb_gen on the subtree *)
+Lemma expected_gen_bin t base s P :
+  subtree_at t base = Some s ->
+  expected_gen true t base P = selb_gen true (fun p => P (base ++ p)) s.
+Proof.
+  intros H. unfold expected_gen, selb_gen.
+  assert (E : forall (f : pos * tree -> list lbl) l,
+             flat_map (fun ps => if prefixb base (fst ps) then f ps else []) l =
+             flat_map f (filter (fun ps => prefixb base (fst ps)) l)).
+  { intros f l. induction l as [|x l IH]; [reflexivity|]. cbn [flat_map filter].
+    destruct (prefixb base (fst x)); cbn [flat_map app]; rewrite IH; reflexivity. }
+  rewrite (flat_map_ext _ (fun ps => if prefixb base (fst ps)
+             then (if pos_eqb (fst ps) base || P (removelast (fst ps))
+                   then [if is_hole (snd ps) || negb (P (fst ps))
+                         then (S (length (fst ps)) - length base, [], []) else rel_lbl base ps] else [])
+             else [])).
+  2:{ intros ps. destruct (prefixb base (fst ps)); reflexivity. }
+  rewrite E, (sub_pre_pos base t s H), flat_map_map'. apply flat_map_ext. intros [p x]. cbn [fst snd].
+  unfold emit_b, rel_lbl, lbl_of. cbn [fst snd]. rewrite rel_depth.
+  destruct p as [|i p].
+  - rewrite app_nil_r, pos_eqb_refl. reflexivity.
+  - assert (Ep : pos_eqb (base ++ i :: p) base = false).
+    { destruct (pos_eqb (base ++ i :: p) base) eqn:E1; [|reflexivity]. apply pos_eqb_eq in E1.
+      rewrite <- (app_nil_r base) in E1 at 2. apply app_inv_head in E1. discriminate. }
+    rewrite Ep. cbn [orb is_nil].
+    assert (Er : removelast (base ++ i :: p) = base ++ removelast (i :: p)).
+    { apply removelast_app. discriminate. }
+    rewrite Er. reflexivity.
+Qed.
+
+(* ---- the BinaryNode family of the umbrella ---- *)
+
+Lemma bin_cut_obs st t s0 d (K : pos -> bool) (alive : pos -> bool) :
+  wf2 s0 = true -> subtree_at t st = Some s0 ->
+  (forall p, survive alive p = K (st ++ p)) ->
+  obs_tree (depth_cut_x true d (filter_tree_b alive (copy_tree s0))) =
+  expected_gen true t st (fun p => K p && within_depth d (S (length p) - length st)).
+Proof.
+  intros Hw Hst HK.
+  assert (Hwc : wf2 (copy_tree s0) = true) by (apply wf2_copy; exact Hw).
+  rewrite (depth_cut_x_true_filter d _ (wf2_filter_b _ alive Hwc)), filter_b_compose.
+  rewrite (obs_filter_b _ _ Hwc), selb_gen_copy, (expected_gen_bin t st s0 _ Hst).
+  apply selb_gen_ext. intros p. rewrite survive_and, survive_depth, rel_depth, HK. reflexivity.
+Qed.
+
+Lemma filter_b_true_copy s0 : filter_tree_b (fun _ => true) (copy_tree s0) = copy_tree s0.
+Proof. apply filter_tree_b_id. Qed.
+
+Theorem prune_tree_at_bin_satisfies tsep t st s0 pp exact sep d :
+  wf2 t = true -> subtree_at t st = Some s0 -> tsep <> [] -> sep <> [] -> paths_ok tsep sep (norm_paths pp) ->
+  prop_C14_at true tsep t st (CPrune pp exact sep d) (obs_of (prune_tree_at true tsep t st pp exact sep d)) = true.
+Proof.
+  intros Hw Hst Ht Hsep Hok. unfold prop_C14_at, prune_tree_at.
+  destruct (is_nil (norm_paths pp) && Nat.eqb d 0) eqn:E0; [reflexivity|].
+  destruct tsep as [|c0 tsep0]; [contradiction|]. destruct sep as [|x sep]; [contradiction|]. cbn [is_nil orb].
+  rewrite subtree_at_copy, Hst. cbn [option_map].
+  assert (Hw0 : wf2 s0 = true) by (apply (wf2_subtree st t s0 Hw Hst)).
+  change (map (fun s => addressed_at true (c0 :: tsep0) t st (replace s (x :: sep) (c0 :: tsep0))) (norm_paths pp))
+    with (hits_bin (c0 :: tsep0) (x :: sep) t st (norm_paths pp)).
+  destruct (existsb is_nil (hits_bin (c0 :: tsep0) (x :: sep) t st (norm_paths pp))) eqn:E1.
+  - destruct (norm_paths pp) as [|s paths] eqn:Ep; [discriminate|]. cbn [is_nil].
+    destruct (locate_bin_missing _ _ t st s0 (s :: paths) Hst Hok E1) as [e He]. rewrite He. reflexivity.
+  - destruct (singletons (hits_bin (c0 :: tsep0) (x :: sep) t st (norm_paths pp))) eqn:E2; [|reflexivity].
+    cbn [negb]. destruct (nested (concat (hits_bin (c0 :: tsep0) (x :: sep) t st (norm_paths pp)))) eqn:E3; [reflexivity|].
+    destruct (norm_paths pp) as [|s paths] eqn:Ep; cbn [is_nil].
+    + cbn [obs_of]. apply is_tree_refl. rewrite <- (filter_b_true_copy s0).
+      apply (bin_cut_obs st t s0 d (fun _ => true) (fun _ => true) Hw0 Hst).
+      intros p. unfold survive. apply forallb_forall. intros; reflexivity.
+    + rewrite (locate_bin_found _ _ t st s0 (s :: paths) Hst Hok E2). cbn [obs_of]. apply is_tree_refl.
+      set (N := concat (hits_bin (c0 :: tsep0) (x :: sep) t st (s :: paths))) in *.
+      unfold prune_paths_at.
+      apply (bin_cut_obs st t s0 d (fun p => false || keep N exact p) _ Hw0 Hst).
+      intros p. cbn [orb]. apply survive_below.
+      * apply singletons_nonempty; [exact E2|discriminate].
+      * apply nested_false. exact E3.
+      * intros q Hq. apply in_concat in Hq as [l [Hl Hq]]. unfold hits_bin in Hl.
+        apply in_map_iff in Hl as [s' [<- _]]. apply (addressed_at_below _ _ _ _ _ _ Hq).
+Qed.
+
+Lemma bin_tail_obs t q x d :
+  wf2 x = true -> subtree_at t q = Some x ->
+  obs_of (if Nat.eqb d 0 then Ret (copy_tree x) else Ret (depth_cut_x true d (copy_tree (copy_tree x)))) =
+  OTree (expected_gen true t q (fun p => within_depth d (S (length p) - length q))).
+Proof.
+  intros Hw Hq.
+  assert (G : forall y, wf2 y = true -> obs_tree (depth_cut_x true d (copy_tree y)) =
+                        selb_gen true (fun p => within_depth d (S (length p))) y).
+  { intros y Hy. rewrite (depth_cut_x_true_filter d _ (wf2_copy y Hy)), (obs_filter_b _ _ (wf2_copy y Hy)), selb_gen_copy.
+    apply selb_gen_ext. intros p. apply survive_depth. }
+  rewrite (expected_gen_bin t q x _ Hq).
+  rewrite (selb_gen_ext true _ (fun p => within_depth d (S (length p)))) by (intros p; rewrite rel_depth; reflexivity).
+  destruct d as [|k]; cbn [Nat.eqb obs_of]; f_equal.
+  - apply (G x Hw).
+  - rewrite (G (copy_tree x) (wf2_copy x Hw)). apply selb_gen_copy.
+Qed.
+
+Theorem get_subtree_at_bin_satisfies tsep t st s0 s d :
+  wf2 t = true -> subtree_at t st = Some s0 -> tsep <> [] -> strip_ok tsep s ->
+  prop_C14_at true tsep t st (CSubtree s d) (obs_of (get_subtree_at true tsep t st s d)) = true.
+Proof.
+  intros Hw Hst Ht Hs. unfold prop_C14_at, get_subtree_at. destruct tsep as [|c0 tsep0]; [contradiction|].
+  cbn [is_nil]. destruct (is_nil s) eqn:Es.
+  - rewrite subtree_at_copy, Hst. cbn [option_map].
+    rewrite (bin_tail_obs t st s0 d (wf2_subtree st t s0 Hw Hst) Hst). apply is_tree_refl. reflexivity.
+  - unfold find_path_at. rewrite (find_paths_at_addressed_bin _ t st s0 s Hst Hs).
+    destruct (addressed_at true (c0 :: tsep0) t st s) as [|q [|q' l]] eqn:Ea; [reflexivity| |reflexivity].
+    destruct (addressed_at_valid true (c0 :: tsep0) t st s q) as [x Hx]; [rewrite Ea; left; reflexivity|].
+    rewrite subtree_at_copy, Hx. cbn [option_map].
+    rewrite (bin_tail_obs t q x d (wf2_subtree q t x Hw Hx) Hx). apply is_tree_refl. reflexivity.
+Qed.
+
+Theorem model_satisfies_C14_bin tsep t st s0 call :
+  wf2 t = true -> subtree_at t st = Some s0 -> tsep <> [] -> call_ok_g tsep call ->
+  prop_C14_at true tsep t st call (obs_of (run_call_at true tsep t st call)) = true.
+Proof.
+  intros Hw Hst Ht. destruct call as [pp exact sep d|s d]; cbn [call_ok_g run_call_at]; intros H.
+  - destruct H as [H1 H2]. apply (prune_tree_at_bin_satisfies tsep t st s0); assumption.
+  - apply (get_subtree_at_bin_satisfies tsep t st s0); assumption.
+Qed.
+
+(* ---- the umbrella: every case of the modelled domain ---- *)
+
+Definition case_ok (bin : bool) (tsep : str) (t : tree) (st : pos) (call : hcall) : Prop :=
+  (exists s0, subtree_at t st = Some s0) /\ tsep <> [] /\ call_ok_g tsep call /\ (bin = true -> wf2 t = true).
+
+Theorem umbrella_C14 bin tsep t st call :
+  case_ok bin tsep t st call ->
+  prop_C14_at bin tsep t st call (obs_of (run_call_at bin tsep t st call)) = true /\
+  prop_C14_top call (obs_of (run_call_at bin tsep t st call)) (top_depth st call) = true.
+Proof.
+  intros [[s0 Hst] [Ht [Hc Hw]]]. split.
+  - destruct bin.
+    + apply (model_satisfies_C14_bin tsep t st s0); auto.
+    + apply (model_satisfies_C14_at_g tsep t st s0); assumption.
+  - unfold prop_C14_top, top_depth. destruct call; [reflexivity|].
+    destruct (obs_of _); reflexivity.
+Qed.
+
+(* ============================================================================================
+   21. Inner start node with a depth limit: the whole copy
+   ============================================================================================ *)
+
+Definition whole_expect (given : bool) (N : list pos) (exact : bool) (st : pos) (d : nat) (p : pos) : bool :=
+  (negb given || keep N exact p) && (negb (prefixb st p) || within_depth d (S (length p) - length st)).
+
+Lemma prefix_length p q : prefix p q -> length p <= length q.
+Proof. intros [r ->]. rewrite app_length. lia. Qed.
+
+Lemma survive_depth_below st d p :
+  survive (fun q => negb (prefixb st q) || Nat.eqb d 0 || Nat.leb (S (length q) - length st) d) p =
+  (negb (prefixb st p) || within_depth d (S (length p) - length st)).
+Proof.
+  unfold within_depth. apply Bool.eq_iff_eq_true. rewrite survive_spec. split.
+  - intros H. destruct p as [|i p].
+    + destruct st as [|j st]; [|reflexivity]. cbn. destruct d; reflexivity.
+    + rewrite orb_assoc. apply H; [discriminate|apply prefix_refl].
+  - intros H y Hy Hyp. destruct (prefixb st y) eqn:Ey; [|reflexivity]. cbn [negb orb].
+    apply prefixb_prefix in Ey.
+    assert (Ep : prefixb st p = true) by (apply prefixb_prefix; apply (prefix_trans _ _ _ Ey Hyp)).
+    rewrite Ep in H. cbn [negb orb] in H. destruct (Nat.eqb d 0); [reflexivity|]. cbn [orb] in *.
+    apply Nat.leb_le in H. apply Nat.leb_le. apply prefix_length in Hyp. lia.
+Qed.
+
+Theorem whole_copy_obs given N exact st d t :
+  (given = true -> N <> [] /\ nested N = false) ->
+  obs_tree (whole_copy_at given N exact st d t) = sel (whole_expect given N exact st d) t.
+Proof.
+  intros HN. unfold whole_copy_at. rewrite filter_tree_obs, sel_copy. apply sel_ext. intros p.
+  unfold whole_alive, whole_expect. rewrite survive_and, survive_depth_below. f_equal.
+  destruct given; cbn [andb negb orb].
+  - destruct (HN eq_refl) as [H1 H2]. apply survive_eq_keep; [exact H1|apply nested_false; exact H2].
+  - unfold survive. apply forallb_forall. intros; reflexivity.
+Qed.
+
+(* above the returned node the depth limit changes nothing; below it the whole copy shows exactly the
+   returned subtree *)
+Theorem whole_copy_above_below given N exact st d t s :
+  subtree_at t st = Some s ->
+  (given = true -> N <> [] /\ nested N = false /\ (forall q, In q N -> prefix st q)) ->
+  (forall p, prefixb st p = false -> whole_expect given N exact st d p = (negb given || keep N exact p)) /\
+  sel (fun p => prefixb st p && whole_expect given N exact st d p) t =
+  map (lbl_add (length st))
+      (obs_tree (depth_cut_x false d (if given then prune_paths_at false N exact st (copy_tree s) else copy_tree s))).
+Proof.
+  intros Hst HN. split.
+  - intros p Hp. unfold whole_expect. rewrite Hp. cbn [negb orb]. apply andb_true_r.
+  - rewrite (sub_sel_abs st t s _ Hst). f_equal. destruct given.
+    + destruct (HN eq_refl) as [H1 [H2 H3]].
+      rewrite (inner_prune_then_cut_obs N exact st t s d Hst H1 H2 H3), (sub_sel st t s _ Hst).
+      apply sel_ext. intros p. unfold whole_expect.
+      assert (Ep : prefixb st (st ++ p) = true) by (apply prefixb_prefix; apply prefix_app_l).
+      rewrite Ep. reflexivity.
+    + rewrite (inner_cut_only_obs st t s d Hst), (sub_sel st t s _ Hst).
+      apply sel_ext. intros p. unfold whole_expect.
+      assert (Ep : prefixb st (st ++ p) = true) by (apply prefixb_prefix; apply prefix_app_l).
+      rewrite Ep. reflexivity.
+Qed.
